@@ -304,3 +304,36 @@ Proof.
   intros OK NA. destruct (run_script_total_init repaired e p ps OK) as (vs & RS & _).
   rewrite RS. f_equal. apply (run_script_meets_spec e p ps vs NA RS).
 Qed.
+
+(* ------------------------------------------------------------------ *)
+(* Tunnels side by side are independent                                 *)
+(* ------------------------------------------------------------------ *)
+
+Lemma run2_proj c tr : forall sa sb sa' sb',
+  run2 c sa sb tr = Some (sa', sb') <->
+  run c sa (proj true tr) = Some sa' /\ run c sb (proj false tr) = Some sb'.
+Proof.
+  induction tr as [|[w l] tr IH]; intros sa sb sa' sb'.
+  - simpl. split.
+    + intro H. inversion H; subst. auto.
+    + intros (A & B). inversion A; inversion B; subst. reflexivity.
+  - destruct w; unfold proj; simpl; fold (proj true tr); fold (proj false tr).
+    + destruct (step c sa l) as [sa1|]; [apply IH|].
+      split; [discriminate|intros (A & _); discriminate].
+    + destruct (step c sb l) as [sb1|]; [apply IH|].
+      split; [discriminate|intros (_ & B); discriminate].
+Qed.
+
+(* whatever the other tunnel does or does not do — idle, stalled, aborted —
+   a tunnel whose own internal steps have run out shows its own ideal view *)
+Lemma concurrent_tunnels_ideal ea pa eb pb tr sa sb :
+  run2 repaired (init ea pa) (init eb pb) tr = Some (sa, sb) ->
+  (quiescentb sa = true -> client_aborted (proj true tr) = false -> target_aborted (proj true tr) = false ->
+   view_of sa = spec_view ea pa (proj true tr)) /\
+  (quiescentb sb = true -> client_aborted (proj false tr) = false -> target_aborted (proj false tr) = false ->
+   view_of sb = spec_view eb pb (proj false tr)).
+Proof.
+  intro R. apply run2_proj in R. destruct R as (RA & RB). split; intros Q NA NB.
+  - exact (checkpoint_view ea pa _ sa RA Q NA NB).
+  - exact (checkpoint_view eb pb _ sb RB Q NA NB).
+Qed.
